@@ -82,6 +82,9 @@ type rcScenario struct {
 	// changes if there is no such earlier call. The schedules of the X spec are replayed unchanged
 	// (RefCount.tla, constant SameCall).
 	SameCall int `json:"samecall"`
+	// the RefCount is built without a target / without an error-target container (both are optional)
+	NoTgt    bool `json:"notgt,omitempty"`
+	NoTgtErr bool `json:"notgterr,omitempty"`
 }
 
 type rcErr struct{ n int }
@@ -169,6 +172,9 @@ func genRefcount(x *sched.Exec) rcScenario {
 	}
 	if r.Intn(3) == 0 {
 		sc.SameCall = 2 + r.Intn(3)
+	}
+	if r.Intn(5) == 0 {
+		sc.NoTgt, sc.NoTgtErr = r.Intn(2) == 0, r.Intn(2) == 0
 	}
 	n := 2 + r.Intn(3)
 	consumers := r.Intn(3) != 0
@@ -308,7 +314,7 @@ func (d *rcDriver) resolver(ctx context.Context, released func()) (int, func(), 
 	var rel func()
 	if withRel {
 		rel = func() {
-			d.x.Log(trace.E{"ev": "rel", "n": n, "tgt": d.tgt.GetValue()})
+			d.x.Log(trace.E{"ev": "rel", "n": n, "tgt": d.tgtVal()})
 		}
 	}
 	if isVal {
@@ -586,6 +592,14 @@ func (d *rcDriver) policy(a *sched.Actor, kind, site string, obj any) bool {
 	return true
 }
 
+// tgtVal reads the target container (0 when the RefCount has none).
+func (d *rcDriver) tgtVal() int {
+	if d.tgt == nil {
+		return 0
+	}
+	return d.tgt.GetValue()
+}
+
 func (d *rcDriver) observe() {
 	x := d.x
 	if d.aborted || len(x.ParkedActors()) != 0 {
@@ -623,14 +637,15 @@ func (d *rcDriver) observe() {
 	sort.Ints(incb)
 	sort.Ints(cbdone)
 	te := 0
-	if ep := d.tgtErr.GetValue(); ep != nil && *ep != nil {
+	if d.tgtErr == nil {
+	} else if ep := d.tgtErr.GetValue(); ep != nil && *ep != nil {
 		if _, n := errID(*ep); n != 0 {
 			te = n
 		} else {
 			te = -2
 		}
 	}
-	x.Log(trace.E{"ev": "quiet", "tgt": d.tgt.GetValue(), "tgterr": te, "act": act, "blk": blk, "incb": incb, "cbdone": cbdone, "open": open})
+	x.Log(trace.E{"ev": "quiet", "tgt": d.tgtVal(), "tgterr": te, "act": act, "blk": blk, "incb": incb, "cbdone": cbdone, "open": open})
 	d.lastQ = x.T.Seq()
 }
 
@@ -663,10 +678,15 @@ func (d *rcDriver) Run(x *sched.Exec, raw json.RawMessage) json.RawMessage {
 	}
 	x.Policy = d.policy
 	d.wantRoot = raw == nil && x.Rng.Intn(4) == 0
-	d.tgt = ccontainer.NewCContainer[int](0)
-	d.tgtErr = ccontainer.NewCContainer[*error](nil)
+	d.tgt, d.tgtErr = nil, nil
+	if !sc.NoTgt {
+		d.tgt = ccontainer.NewCContainer[int](0)
+	}
+	if !sc.NoTgtErr {
+		d.tgtErr = ccontainer.NewCContainer[*error](nil)
+	}
 	d.rc = refcount.NewRefCount[int](nil, sc.Keep, d.tgt, d.tgtErr, d.resolver)
-	x.Log(trace.E{"ev": "cfg", "keep": sc.Keep})
+	x.Log(trace.E{"ev": "cfg", "keep": sc.Keep, "notgt": sc.NoTgt, "notgterr": sc.NoTgtErr})
 	mk := func(name string) *rcClient {
 		c := &rcClient{c: x.NewClient(name), refs: map[int]func(){}, refid: map[int]int{}}
 		d.byName[name] = c
